@@ -137,21 +137,36 @@ theorem lexCompare_eq_lexN (ltE : α → α → Bool) (m : Mem α) :
 
 /-! ### the comparison loops -/
 
-theorem equalN_map_iff [DecidableEq α] {ι : Type} (m : Mem α) (f g : ι → Int) :
-    ∀ (L : List ι) (x y : ElemIt), ElemIt.addrs L.length x = L.map f → ElemIt.addrs L.length y = L.map g →
-      (ElemIt.equalN m L.length x y = true ↔ ∀ i ∈ L, m (f i) = m (g i)) := by
+theorem addrs_succ_some' {n : Nat} {x : ElemIt} {a : Int} {l : List Int} (h : ElemIt.addrs (n + 1) x = some (a :: l)) :
+    ∃ x', x.inc = some x' ∧ ElemIt.addrs n x' = some l ∧ x.current = a := by
+  simp only [ElemIt.addrs] at h
+  cases hx : x.inc with
+  | none => simp [hx] at h
+  | some x' =>
+    cases hr : ElemIt.addrs n x' with
+    | none => simp [hx, hr] at h
+    | some rest =>
+      simp [hx, hr] at h
+      exact ⟨x', rfl, by rw [hr, h.2], h.1⟩
+
+theorem equalN_map_iff' [DecidableEq α] {ι : Type} (m : Mem α) (f g : ι → Int) :
+    ∀ (L : List ι) (x y : ElemIt), ElemIt.addrs L.length x = some (L.map f) → ElemIt.addrs L.length y = some (L.map g) →
+      ∃ r, ElemIt.equalN m L.length x y = some r ∧ (r = true ↔ ∀ i ∈ L, m (f i) = m (g i)) := by
   intro L
   induction L with
-  | nil => intro x y _ _; simp [ElemIt.equalN]
+  | nil => intro x y _ _; exact ⟨true, by simp [ElemIt.equalN], by simp⟩
   | cons i L ih =>
     intro x y hx hy
-    simp only [List.length_cons, ElemIt.addrs, List.map_cons, List.cons.injEq] at hx hy
-    simp only [List.length_cons, ElemIt.equalN, hx.1, hy.1, List.mem_cons, forall_eq_or_imp]
+    simp only [List.length_cons, List.map_cons] at hx hy
+    obtain ⟨x', hx1, hx2, hx3⟩ := addrs_succ_some' hx
+    obtain ⟨y', hy1, hy2, hy3⟩ := addrs_succ_some' hy
+    obtain ⟨r, hr1, hr2⟩ := ih x' y' hx2 hy2
+    simp only [List.length_cons, ElemIt.equalN, hx3, hy3, hx1, hy1, List.mem_cons, forall_eq_or_imp]
     by_cases h : m (f i) = m (g i)
-    · simp [h, ih x.inc y.inc hx.2 hy.2]
-    · simp [h]
+    · exact ⟨r, by simp [h, hr1], by simp [h, hr2]⟩
+    · exact ⟨false, by simp [h], by simp [h]⟩
 
-theorem equalFlat_iff [DecidableEq α] (m : Mem α) :
+theorem equalFlat_iff' [DecidableEq α] (m : Mem α) :
     ∀ (n : Nat) (p q : Int), equalFlat m n p q = true ↔ ∀ k : Int, 0 ≤ k → k < n → m (p + k) = m (q + k) := by
   intro n
   induction n with
